@@ -81,9 +81,9 @@ def module_files(prop):
     """Source files holding the harnesses of a property (hand-written + generated)."""
     p = prop.lower()
     files = []
-    for name in sorted(os.listdir(os.path.join(KANI_SRC, "src"))):
+    for name in sorted(os.listdir(os.path.join(KANI_DIR, "src"))):
         if name == p + ".rs" or name.startswith(p + "_"):
-            files.append(os.path.join(KANI_SRC, "src", name))
+            files.append(os.path.join(KANI_DIR, "src", name))
     return files
 
 
@@ -218,7 +218,9 @@ def run_kani(prop, harnesses, tier_cfg, extra_flags, tag, jobs=None):
 
 
 def feature_of(module):
-    return module.split("_")[0]
+    # one cargo feature per harness module (c14, c14_gen, ...), so that a module that no
+    # longer compiles against /repo takes only its own obligations down
+    return module
 
 
 def strip_generics(fn):
@@ -409,6 +411,13 @@ def check_property(prop, tier, only=None, jobs=None, seed=0, skip_smt=False, ski
     tier_cfg = TIERS[tier]
     os.makedirs(BUILD, exist_ok=True)
     prepare_alt_crate()
+    if prop == "C14":
+        # harnesses generated from /repo's current source: one per public ReadFrom implementor
+        try:
+            import gen_harness
+            gen_harness.generate(REPO, os.path.join(KANI_DIR, "src", "c14_gen.rs"))
+        except Exception as e:
+            log("INCONCLUSIVE: property=C14 harness generator failed: %r" % (e,))
     known = load_known()
     harnesses = discover_harnesses(prop)
     if tier == "quick":
@@ -429,10 +438,10 @@ def check_property(prop, tier, only=None, jobs=None, seed=0, skip_smt=False, ski
     # ---- Engine A ----
     groups = {}
     for h in harnesses:
-        groups.setdefault(h["flags"], []).append(h)
+        groups.setdefault((h["flags"], h["module"]), []).append(h)
     if skip_kani:
         groups = {}
-    for gi, (flags, hs) in enumerate(sorted(groups.items())):
+    for gi, ((flags, _module), hs) in enumerate(sorted(groups.items())):
         # keep modules apart: a module that no longer builds takes only its own harnesses down
         by_feature = {}
         for h in hs:
